@@ -98,8 +98,13 @@ pub fn check_text(text: &str, ctx: &mut Ctx) -> Outcome {
 
 /// Decode (schema, mutations) from the choice stream. Shared with C15/C16.
 pub fn gen_case(c: &mut Choices, tier: Tier) -> (String, Vec<String>) {
+    gen_case_weighted(c, tier, &[12, 60, 28])
+}
+
+/// `weights`: probabilities of 0, 1, 2 mutations.
+pub fn gen_case_weighted(c: &mut Choices, tier: Tier, weights: &[u32]) -> (String, Vec<String>) {
     // the mutation plan is decoded FIRST, so that short choice vectors still yield mutated cases
-    let n = c.weighted(&[12, 60, 28]);
+    let n = c.weighted(weights);
     let plan: Vec<usize> = (0..n).map(|_| gm::pick(c)).collect();
     let opts = gs::Opts { max_types: if tier == Tier::Quick { 3 } else { 4 }, ..gs::Opts::default() };
     let mut doc = gs::schema(c, &opts);
